@@ -409,6 +409,14 @@ class AbstractBasis:
 
         return interp
 
+    def _restrict_interp(self, interp, ix: ndarray):
+        """Restrict ``interp`` to the elements (or facets) of the basis at the
+        positions ``ix``; only the values are needed in the projection."""
+        if callable(interp):
+            return interp  # evaluated by the restricted basis
+        return tuple(np.asarray(c)[..., ix, :]
+                     for c in self._normalize_interp(interp))
+
     def _projection(self, interp, dtype=None):
 
         from skfem.assembly import BilinearForm, LinearForm
